@@ -17,7 +17,7 @@ pub const DEF: PropDef = PropDef {
     id: "C08",
     run,
     oracle,
-    rule: "cases = buffers of 1..4 chained V5/V7 packets with raw-byte headers/records (random, distinct-byte patterns, boundary values), counts 0..40 (quick) up to the datagram limit (thorough). Direction (a): every V5/V7 element returned by parse_bytes must re-export (to_be_bytes) to exactly the bytes of its span in the input. Direction (b): for every packet the harness builds the library's V5/V7 structure through its public fields from an independent offset-table decode (count = number of records, protocol_type = ProtocolTypes::from(number)), and requires to_be_bytes to give the original bytes, parsing those bytes to give one packet, no remainder, equal header and records, and a second export to give the same bytes. non-trivial = count >= 2 and all adjacent equal-width fields of some record carry different values (a transposition cannot cancel); distinct by digest.",
+    rule: "cases = buffers of 1..4 chained V5/V7 packets with raw-byte headers/records (random, distinct-byte patterns, boundary values), counts 0..40 (quick) up to the datagram limit (thorough). Direction (a): every V5/V7 element returned by parse_bytes must re-export (to_be_bytes) to exactly the bytes of its span in the input. Direction (b): for every packet the harness builds the library's V5/V7 structure by assigning every public field (of a structure obtained by parsing an all-zero packet of the same count) from an independent offset-table decode (count = number of records, protocol_type = ProtocolTypes::from(number)), and requires to_be_bytes to give the original bytes, parsing those bytes to give one packet, no remainder, equal header and records, and a second export to give the same bytes. non-trivial = count >= 2 and all adjacent equal-width fields of some record carry different values (a transposition cannot cancel); distinct by digest.",
     assumptions: &["structures for direction (b) are built from the independent offset table of C03 (refdec::V5_RECORD / V7_RECORD)"],
 };
 
@@ -25,91 +25,100 @@ fn g(n: &[(&'static str, u64)], k: &str) -> u64 {
     n.iter().find(|(a, _)| *a == k).map(|(_, v)| *v).unwrap_or_else(|| panic!("no field {}", k))
 }
 
-fn build_v5(r: &RefFixed) -> v5::V5 {
-    let h = &r.header;
-    v5::V5 {
-        header: v5::Header {
-            version: 5,
-            count: r.records.len() as u16,
-            sys_up_time: g(h, "sys_up_time") as u32,
-            unix_secs: g(h, "unix_secs") as u32,
-            unix_nsecs: g(h, "unix_nsecs") as u32,
-            flow_sequence: g(h, "flow_sequence") as u32,
-            engine_type: g(h, "engine_type") as u8,
-            engine_id: g(h, "engine_id") as u8,
-            sampling_interval: g(h, "sampling_interval") as u16,
-        },
-        flowsets: r
-            .records
-            .iter()
-            .map(|s| v5::FlowSet {
-                src_addr: Ipv4Addr::from(g(s, "src_addr") as u32),
-                dst_addr: Ipv4Addr::from(g(s, "dst_addr") as u32),
-                next_hop: Ipv4Addr::from(g(s, "next_hop") as u32),
-                input: g(s, "input") as u16,
-                output: g(s, "output") as u16,
-                d_pkts: g(s, "d_pkts") as u32,
-                d_octets: g(s, "d_octets") as u32,
-                first: g(s, "first") as u32,
-                last: g(s, "last") as u32,
-                src_port: g(s, "src_port") as u16,
-                dst_port: g(s, "dst_port") as u16,
-                pad1: g(s, "pad1") as u8,
-                tcp_flags: g(s, "tcp_flags") as u8,
-                protocol_number: g(s, "protocol_number") as u8,
-                protocol_type: ProtocolTypes::from(g(s, "protocol_number") as u8),
-                tos: g(s, "tos") as u8,
-                src_as: g(s, "src_as") as u16,
-                dst_as: g(s, "dst_as") as u16,
-                src_mask: g(s, "src_mask") as u8,
-                dst_mask: g(s, "dst_mask") as u8,
-                pad2: g(s, "pad2") as u16,
-            })
-            .collect(),
+/// A structure of the library's own making to start from: the parse of a packet of `n`
+/// all-zero records. Every public field is then assigned from the independent offset-table
+/// decode, so the structure does not depend on the parser - but it keeps compiling (and
+/// keeps whatever the library fills in) if a field is added to the library's structs later.
+fn blank(version: u16, n: usize) -> Option<NetflowPacket> {
+    let rl = if version == 5 { 48 } else { 52 };
+    let bytes = enc_fixed(version, n as u16, &[0; 20], &vec![vec![0u8; rl]; n]);
+    let mut r = new_parser(&[5, 7]).parse_bytes(&bytes);
+    if r.len() == 1 {
+        r.pop()
+    } else {
+        None
     }
 }
 
-fn build_v7(r: &RefFixed) -> v7::V7 {
-    let h = &r.header;
-    v7::V7 {
-        header: v7::Header {
-            version: 7,
-            count: r.records.len() as u16,
-            sys_up_time: g(h, "sys_up_time") as u32,
-            unix_secs: g(h, "unix_secs") as u32,
-            unix_nsecs: g(h, "unix_nsecs") as u32,
-            flow_sequence: g(h, "flow_sequence") as u32,
-            reserved: g(h, "reserved") as u32,
-        },
-        flowsets: r
-            .records
-            .iter()
-            .map(|s| v7::FlowSet {
-                src_addr: Ipv4Addr::from(g(s, "src_addr") as u32),
-                dst_addr: Ipv4Addr::from(g(s, "dst_addr") as u32),
-                next_hop: Ipv4Addr::from(g(s, "next_hop") as u32),
-                input: g(s, "input") as u16,
-                output: g(s, "output") as u16,
-                d_pkts: g(s, "d_pkts") as u32,
-                d_octets: g(s, "d_octets") as u32,
-                first: g(s, "first") as u32,
-                last: g(s, "last") as u32,
-                src_port: g(s, "src_port") as u16,
-                dst_port: g(s, "dst_port") as u16,
-                flags_fields_valid: g(s, "flags_fields_valid") as u8,
-                tcp_flags: g(s, "tcp_flags") as u8,
-                protocol_number: g(s, "protocol_number") as u8,
-                protocol_type: ProtocolTypes::from(g(s, "protocol_number") as u8),
-                tos: g(s, "tos") as u8,
-                src_as: g(s, "src_as") as u16,
-                dst_as: g(s, "dst_as") as u16,
-                src_mask: g(s, "src_mask") as u8,
-                dst_mask: g(s, "dst_mask") as u8,
-                flags_fields_invalid: g(s, "flags_fields_invalid") as u16,
-                router_src: Ipv4Addr::from(g(s, "router_src") as u32),
-            })
-            .collect(),
+fn build_v5(r: &RefFixed) -> Option<v5::V5> {
+    let Some(NetflowPacket::V5(mut v)) = blank(5, r.records.len()) else { return None };
+    if v.flowsets.len() != r.records.len() {
+        return None;
     }
+    let h = &r.header;
+    v.header.version = 5;
+    v.header.count = r.records.len() as u16;
+    v.header.sys_up_time = g(h, "sys_up_time") as u32;
+    v.header.unix_secs = g(h, "unix_secs") as u32;
+    v.header.unix_nsecs = g(h, "unix_nsecs") as u32;
+    v.header.flow_sequence = g(h, "flow_sequence") as u32;
+    v.header.engine_type = g(h, "engine_type") as u8;
+    v.header.engine_id = g(h, "engine_id") as u8;
+    v.header.sampling_interval = g(h, "sampling_interval") as u16;
+    for (f, s) in v.flowsets.iter_mut().zip(r.records.iter()) {
+        f.src_addr = Ipv4Addr::from(g(s, "src_addr") as u32);
+        f.dst_addr = Ipv4Addr::from(g(s, "dst_addr") as u32);
+        f.next_hop = Ipv4Addr::from(g(s, "next_hop") as u32);
+        f.input = g(s, "input") as u16;
+        f.output = g(s, "output") as u16;
+        f.d_pkts = g(s, "d_pkts") as u32;
+        f.d_octets = g(s, "d_octets") as u32;
+        f.first = g(s, "first") as u32;
+        f.last = g(s, "last") as u32;
+        f.src_port = g(s, "src_port") as u16;
+        f.dst_port = g(s, "dst_port") as u16;
+        f.pad1 = g(s, "pad1") as u8;
+        f.tcp_flags = g(s, "tcp_flags") as u8;
+        f.protocol_number = g(s, "protocol_number") as u8;
+        f.protocol_type = ProtocolTypes::from(g(s, "protocol_number") as u8);
+        f.tos = g(s, "tos") as u8;
+        f.src_as = g(s, "src_as") as u16;
+        f.dst_as = g(s, "dst_as") as u16;
+        f.src_mask = g(s, "src_mask") as u8;
+        f.dst_mask = g(s, "dst_mask") as u8;
+        f.pad2 = g(s, "pad2") as u16;
+    }
+    Some(v)
+}
+
+fn build_v7(r: &RefFixed) -> Option<v7::V7> {
+    let Some(NetflowPacket::V7(mut v)) = blank(7, r.records.len()) else { return None };
+    if v.flowsets.len() != r.records.len() {
+        return None;
+    }
+    let h = &r.header;
+    v.header.version = 7;
+    v.header.count = r.records.len() as u16;
+    v.header.sys_up_time = g(h, "sys_up_time") as u32;
+    v.header.unix_secs = g(h, "unix_secs") as u32;
+    v.header.unix_nsecs = g(h, "unix_nsecs") as u32;
+    v.header.flow_sequence = g(h, "flow_sequence") as u32;
+    v.header.reserved = g(h, "reserved") as u32;
+    for (f, s) in v.flowsets.iter_mut().zip(r.records.iter()) {
+        f.src_addr = Ipv4Addr::from(g(s, "src_addr") as u32);
+        f.dst_addr = Ipv4Addr::from(g(s, "dst_addr") as u32);
+        f.next_hop = Ipv4Addr::from(g(s, "next_hop") as u32);
+        f.input = g(s, "input") as u16;
+        f.output = g(s, "output") as u16;
+        f.d_pkts = g(s, "d_pkts") as u32;
+        f.d_octets = g(s, "d_octets") as u32;
+        f.first = g(s, "first") as u32;
+        f.last = g(s, "last") as u32;
+        f.src_port = g(s, "src_port") as u16;
+        f.dst_port = g(s, "dst_port") as u16;
+        f.flags_fields_valid = g(s, "flags_fields_valid") as u8;
+        f.tcp_flags = g(s, "tcp_flags") as u8;
+        f.protocol_number = g(s, "protocol_number") as u8;
+        f.protocol_type = ProtocolTypes::from(g(s, "protocol_number") as u8);
+        f.tos = g(s, "tos") as u8;
+        f.src_as = g(s, "src_as") as u16;
+        f.dst_as = g(s, "dst_as") as u16;
+        f.src_mask = g(s, "src_mask") as u8;
+        f.dst_mask = g(s, "dst_mask") as u8;
+        f.flags_fields_invalid = g(s, "flags_fields_invalid") as u16;
+        f.router_src = Ipv4Addr::from(g(s, "router_src") as u32);
+    }
+    Some(v)
 }
 
 fn neighbours_differ(r: &RefFixed) -> bool {
@@ -156,7 +165,15 @@ pub fn oracle(case: &Case) -> Outcome {
         while off + 2 <= buf.len() && (be16(buf, off) == 5 || be16(buf, off) == 7) {
             let Some(r) = dec_fixed(&buf[off..]) else { break };
             let orig = &buf[off..off + r.len];
-            let bytes = if r.version == 5 { build_v5(&r).to_be_bytes() } else { build_v7(&r).to_be_bytes() };
+            let built = if r.version == 5 { build_v5(&r).map(|s| s.to_be_bytes()) } else { build_v7(&r).map(|s| s.to_be_bytes()) };
+            let Some(bytes) = built else {
+                return Outcome::violation(format!(
+                    "call {}: a V{} packet of {} all-zero records (the starting point for building a structure) does not parse to one packet with that many records",
+                    ci,
+                    r.version,
+                    r.records.len()
+                ));
+            };
             if bytes != orig {
                 let at = bytes.iter().zip(orig.iter()).position(|(a, b)| a != b);
                 return Outcome::violation(format!(
@@ -179,12 +196,21 @@ pub fn oracle(case: &Case) -> Outcome {
                 ));
             }
             let same = match (&back[0], r.version) {
+                // (protocol_type, the symbolic name, is C03's subject: it is taken over from the
+                // parsed packet so that this comparison does not depend on which of the
+                // library's two number->name routes the parser uses)
                 (NetflowPacket::V5(q), 5) => {
-                    let s = build_v5(&r);
+                    let Some(mut s) = build_v5(&r) else { return Outcome::harness("HARNESS: blank V5 structure unavailable") };
+                    for (a, b) in s.flowsets.iter_mut().zip(q.flowsets.iter()) {
+                        a.protocol_type = b.protocol_type;
+                    }
                     q.header == s.header && q.flowsets == s.flowsets && q.to_be_bytes() == bytes
                 }
                 (NetflowPacket::V7(q), 7) => {
-                    let s = build_v7(&r);
+                    let Some(mut s) = build_v7(&r) else { return Outcome::harness("HARNESS: blank V7 structure unavailable") };
+                    for (a, b) in s.flowsets.iter_mut().zip(q.flowsets.iter()) {
+                        a.protocol_type = b.protocol_type;
+                    }
                     q.header == s.header && q.flowsets == s.flowsets && q.to_be_bytes() == bytes
                 }
                 _ => false,
